@@ -1,12 +1,20 @@
 """Shared machinery of the fixed-string checks C01 / C02 (specs/FixedString*.tla, harness/fixedstring).
 
- * configurations (layout x policy x character type x N) and how their drivers are built
- * S->C: TLC enumerates every transition of FixedString.tla (Emit lines: pre-state, call, expected
-   result, expected projection); the calls are replayed on the real objects and the observed result /
-   projection are compared for equality with what TLC printed (no oracle here: a join and '==')
- * C->S: seeded random scripts (boundary biased, only a shadow of the two lengths is tracked to stay
-   inside the C++ preconditions); the recorded traces are validated by TLC (FixedStringTrace.tla)
- * known-finding avoidance / classification, replay
+ * configurations (layout x policy x character type x N x build flavour: compiler, optimisation level, NDEBUG,
+   XTL_NO_EXCEPTIONS) and how their drivers are built; prepare(): the compile-time signature table first
+   (sig_probe.cpp: a changed return type / a removed overload is a VIOLATION, not a harness that does not compile),
+   then the driver builds, tolerant of configurations that no longer build once violations are known
+ * S->C: TLC enumerates every transition of FixedString.tla (Emit lines: pre-state, call, expected result, expected
+   projection), started in the background at once (independent of the include tree); the calls are replayed on the
+   real objects - completely or as a stratified sample (stratum = pre-state x operation) - and the observed result /
+   projection are compared for equality with what TLC printed (no oracle here: a join and '=='; an operand passed as
+   an rvalue may hold any valid string afterwards); a driver that dies is restarted at the next pre-state group
+ * C->S: the upstream tests' call sequences (vlib/fixedstring_upstream.py), directed executions, seeded random scripts
+   (boundary biased, sources inside the object itself included; only a shadow of the two lengths is tracked to stay
+   inside the C++ preconditions); the recorded traces are validated by TLC (FixedStringTrace.tla); a driver that
+   crashes / hangs (per-call CPU limit) ends its execution with a Crash event and is restarted on the next execution
+ * known-finding avoidance / classification (known_findings.json entries plus entries this check proposes,
+   PROPOSED_OPEN, reported as PENDING-FINDING until the coordinator lists or repairs them), replay
 """
 import json, os, random, re, subprocess, time, zlib
 from concurrent.futures import ProcessPoolExecutor, ThreadPoolExecutor
@@ -21,11 +29,21 @@ TLC_ENV = {"JAVA_TOOL_OPTIONS": "-Xss64m"}
 # degree of parallelism (TLC workers, replay processes); VERIF_WORKERS lowers it on a shared machine
 # development aids (both off by default): stop after the first stage that found a violation; skip the two
 # model-checking stages that do not depend on the include tree (used when screening mutated trees)
+MAX_REJECTIONS_PER_TRACE = 2     # a pervasive defect must not turn into hundreds of explain runs
+ENOUGH_VIOLATIONS = 12           # ... nor into every later stage confirming it once more
 FAILFAST = bool(os.environ.get("VERIF_FAILFAST"))
 SKIP_MC = bool(os.environ.get("VERIF_SKIP_MC"))
 WORKERS = max(1, int(os.environ.get("VERIF_WORKERS", "0") or 0) or core.NCPU)
 HARNESS_SRC = os.path.join(core.HARNESS, "fixedstring", "driver.cpp")
 WPROBE_SRC = os.path.join(core.HARNESS, "fixedstring", "wide_probe.cpp")
+SIGPROBE_SRC = os.path.join(core.HARNESS, "fixedstring", "sig_probe.cpp")
+# build flavours of the conformance driver (configuration axis "how the translation unit is compiled")
+FLAVOURS = {"": (None, []),                                   # g++ -O1 -g, assertions on (core.BASE_FLAGS)
+            "c": ("clang++", []),                             # clang++ -O1 -g
+            "o": (None, ["-O2", "-DNDEBUG"]),                 # g++ -O2, assert() compiled out
+            "co": ("clang++", ["-O2", "-DNDEBUG"]),
+            "z": (None, ["-O0"]),
+            "x": (None, ["-O2", "-DNDEBUG", "-DXTL_NO_EXCEPTIONS"])}   # failing checks terminate instead of throwing
 CW = {"char": 1, "char16_t": 2, "wchar_t": 4, "char32_t": 4}
 CTAG = {"char": "", "char16_t": "u", "wchar_t": "w", "char32_t": "U"}
 IL_LENS = set(range(0, 11)) | {17}
@@ -40,46 +58,269 @@ ALL_OPS = ["CtorDefault", "CtorFill", "CtorSub", "CtorSeq", "Overlay", "AssignFi
 IO_OPS = {"StreamOut", "StreamIn", "GetLine"}     # the stream operators exist for char only
 PAIR_MUTATORS = {"Swap"}          # may change the other object too (besides anything with an "objm" operand)
 
-# Open known findings the generators must not walk into (see DESIGN.md section 5; the entry itself lives in
-# known_findings.json, the probe that keeps it visible is run by the checks when the entry is listed there).
-#   one-argument resize(n) growing the string pads with ' ' instead of CharT() (deliberate, documented in the source)
-def avoid(ev, lens):
-    """True when the call is exactly an open known finding's call site/input."""
+ALIAS_KINDS = ("self", "selfp", "selfz", "selfit")
+
+# Findings this check proposes as open entries of known_findings.json (the coordinator owns that file).  While an
+# entry is not listed there and its probes still fail, the check prints PENDING-FINDING (exit status unaffected);
+# listed there it is an ordinary KNOWN-FINDING.  When all probes of an entry pass on the tree under test the entry
+# is inactive: nothing is avoided and every rejection in its class is a VIOLATION.
+_P16 = {"ct": "char", "n": 16, "strlen": 0, "thr": 1}
+_S16 = {"ct": "char", "n": 16, "strlen": 1, "thr": 1}
+_F300 = {"ct": "char", "n": 300, "strlen": 0, "thr": 0}
+
+
+def _rs(c):
+    return {"op": "Reset", "k": 1, "a": {"n": c["n"], "policy": "throwing" if c["thr"] else "silent",
+                                          "layout": "strlen" if c["strlen"] else ("packed" if c["n"] < 256 else "sizefield"), "cw": 1}}
+
+
+_ABCD = {"op": "AssignSeq", "k": 1, "a": {"ov": "assign", "sk": "ptr", "src": [97, 98, 99, 100]}}
+# Finding C01-alias-moved-source (assign / insert / replace with a source inside the string itself: the terminator of
+# the new length or the shifted tail overwrote the source before it was read, traits_type::copy got overlapping
+# ranges) was found by this check in round 2 and is repaired in /repo (d2d1dcc, proposed_fixes/C01-06).  A repaired
+# finding suppresses nothing: the list of proposed entries is empty again and its probes are ordinary directed
+# executions (ALIAS_DIRECTED) that must be accepted like any other.
+PROPOSED_OPEN = []
+ALIAS_DIRECTED = [
+    (_P16, [_rs(_P16), _ABCD, {"op": "AssignSub", "k": 1, "a": {"sk": "self", "src": [], "pos": 1, "n": 2}}]),
+    (_S16, [_rs(_S16), _ABCD, {"op": "AssignSeq", "k": 1, "a": {"ov": "op", "sk": "selfz", "src": [2]}}]),
+    (_P16, [_rs(_P16), _ABCD, {"op": "AssignSeq", "k": 1, "a": {"ov": "assign", "sk": "selfit", "src": [1, 3]}}]),
+    (_P16, [_rs(_P16), _ABCD, {"op": "InsertSub", "k": 1, "a": {"idx": 1, "sk": "self", "src": [], "pos": 2, "n": 2}}]),
+    (_F300, [_rs(_F300), _ABCD, {"op": "InsertSeq", "k": 1, "a": {"idx": 1, "sk": "self", "src": []}}]),
+    (_P16, [_rs(_P16), _ABCD, {"op": "InsertItSeq", "k": 1, "a": {"it": 1, "sk": "selfit", "src": [2, 2]}}]),
+    (_S16, [_rs(_S16), _ABCD, {"op": "Replace", "k": 1, "a": {"pos": 0, "n": 2, "sk": "selfp", "src": [1, 3]}}]),
+    (_P16, [_rs(_P16), _ABCD, {"op": "ReplaceIt", "k": 1, "a": {"f": 0, "l": 1, "sk": "selfit", "src": [1, 3]}}]),
+]
+# set by probe_pending(): ids of the proposed / listed entries whose probes fail on the tree under test
+ACTIVE = set()
+
+
+def alias_source(ev, prestr=None, prelen=None):
+    """For a call whose source is (part of) the object itself: (mode, off, [possible counts]) with mode "cpy"
+    (read by traits_type::copy) or "mov" (read by std::copy); None for every other call.  prestr: the object's
+    characters before the call when known (needed for the length of a C string that starts inside it)."""
+    a = ev.get("a", {})
+    sk = a.get("sk")
+    if sk not in ALIAS_KINDS:
+        return None
+    n = len(prestr) if prestr is not None else prelen
+    src = a.get("src") or []
+    if sk == "self":
+        if "pos" in a and ev["op"] in ("AssignSub", "AppendSub", "InsertSub"):
+            p, c = a["pos"], a["n"]
+        elif ev["op"] == "ReplaceSub" or ev["op"] == "Compare2":
+            p, c = a["pos2"], a["n2"]
+        else:
+            return ("cpy", 0, [n])
+        if p == NPOS or p > n:
+            return None                       # the call throws out_of_range before anything else
+        rest = n - p
+        return ("cpy", p, [rest if (c in (NPOS, DFLT) or c > rest) else c])
+    if sk == "selfz":
+        off = src[0]
+        if prestr is not None:
+            tail = list(prestr[off:])
+            return ("cpy", off, [tail.index(0) if 0 in tail else len(tail)])
+        return ("cpy", off, list(range(0, n - off + 1)))
+    return ("mov" if sk == "selfit" else "cpy", src[0], [src[1]])
+
+
+def alias_unsafe(ev, prestr=None, prelen=None):
+    """The calls of finding C01-alias-moved-source (the same predicate as Safe* in specs/FixedStringImpl.tla):
+    the source lies inside the string and the member function, as written, overwrites part of it before it is
+    read or hands overlapping ranges to traits_type::copy."""
+    al = alias_source(ev, prestr, prelen)
+    if al is None:
+        return False
+    mode, off, cnts = al
+    op, a = ev["op"], ev["a"]
+    n = len(prestr) if prestr is not None else prelen
+
+    def bad(p):
+        return p == NPOS or p > n
+
+    for cnt in cnts:
+        if cnt == 0:
+            continue
+        if op in ("AssignSeq", "AssignSub"):
+            if a.get("sk") == "self" and op == "AssignSeq":
+                continue                                   # assign(s) / s = s: guarded / whole storage onto itself
+            if off >= 1 and off <= cnt:
+                return True
+        elif op in ("InsertSeq", "InsertSub", "InsertItSeq"):
+            idx = a["it"] if op == "InsertItSeq" else a["idx"]
+            if bad(idx):
+                continue
+            if (off > idx) if mode == "mov" else not (off + cnt <= idx or off == idx):
+                return True
+        elif op in ("Replace", "ReplaceSub", "ReplaceIt"):
+            if op == "ReplaceIt":
+                p, ec = a["f"], a["l"] - a["f"]
+            else:
+                p = a["pos"]
+                if bad(p):
+                    continue
+                rest = n - p
+                ec = rest if (a["n"] == NPOS or a["n"] > rest) else a["n"]
+            if mode == "mov":
+                safe = off <= p or ec >= cnt
+            else:
+                safe = off == p or off + cnt <= p or (off >= p + cnt and ec >= cnt)
+            if not safe:
+                return True
+    return False
+
+
+# Open known findings the generators must not walk into (see DESIGN.md section 5):
+#   C01-resize1-pad (known_findings.json): one-argument resize(n) growing the string pads with ' ' instead of CharT()
+#   C01-alias-moved-source (PROPOSED_OPEN above), while its probes fail
+def avoid(ev, lens, pre=None):
+    """True when the call is exactly an open finding's call site/input.  lens: the two lengths before the call;
+    pre: the two strings before the call when known."""
+    k = ev.get("k", 1) - 1
     if ev["op"] == "Resize1":
         n = ev["a"]["n"]
-        return n != NPOS and n > lens[ev["k"] - 1]
+        return n != NPOS and n > lens[k]
+    if "C01-alias-moved-source" in ACTIVE and ev.get("a", {}).get("sk") in ALIAS_KINDS:
+        return alias_unsafe(ev, pre[k] if pre is not None else None, lens[k])
     return False
 
 
 # ------------------------------------------------------------------ configurations
-def make_cfg(ct="char", n=3, strlen=0, thr=0, ref=0):
+def make_cfg(ct="char", n=3, strlen=0, thr=0, ref=0, fl=""):
     cw = CW[ct]
     layout = "strlen" if strlen else ("packed" if n < (1 << (8 * cw)) else "sizefield")
     name = ("ref" + CTAG[ct] + str(n)) if ref else "%s%s%d%s" % (CTAG[ct], {"strlen": "s", "packed": "p", "sizefield": "f"}[layout], n, "t" if thr else "s")
-    return {"name": name, "ct": ct, "cw": cw, "n": n, "strlen": strlen, "thr": thr, "ref": ref, "layout": layout,
+    if fl:
+        name += "-" + fl
+    return {"name": name, "ct": ct, "cw": cw, "n": n, "strlen": strlen, "thr": thr, "ref": ref, "layout": layout, "fl": fl,
             "policy": "throwing" if thr else "silent", "io": 1 if ct == "char" else 0}
 
 
 def reset_event(c):
-    return {"op": "Reset", "k": 1, "a": {"n": c["n"], "policy": c["policy"], "layout": c["layout"], "cw": c["cw"]}}
+    return {"op": "Reset", "k": 1, "a": {"n": c["n"], "policy": c["policy"], "layout": c["layout"], "cw": c["cw"], "ct": c["ct"], "fl": c.get("fl", "")}}
 
 
 def flags_of(c):
-    return ["-DFS_CT=" + c["ct"], "-DFS_N=%d" % c["n"], "-DFS_STRLEN=%d" % c["strlen"], "-DFS_THROW=%d" % c["thr"],
-            "-DFS_REF=%d" % c["ref"], "-DFS_IO=%d" % c["io"]]
+    # -g0: debug information doubles the compile time of a driver and is only ever read by a sanitizer report
+    return ["-g0", "-DFS_CT=" + c["ct"], "-DFS_N=%d" % c["n"], "-DFS_STRLEN=%d" % c["strlen"], "-DFS_THROW=%d" % c["thr"],
+            "-DFS_REF=%d" % c["ref"], "-DFS_IO=%d" % c["io"]] + FLAVOURS[c.get("fl", "")][1]
 
 
-def build_drivers(ctx, cfgs):
-    """Compile one driver per configuration in parallel; returns {name: path}."""
+def build_drivers(ctx, cfgs, tolerate=False):
+    """Compile one driver per configuration in parallel; returns {name: path}.
+    tolerate: a driver that does not compile is left out and recorded in ctx.notes["driver_build_failures"]
+    (the caller decides: with signature-probe violations already found the run goes on with the others and
+    ends with exit 1; without any it is a machinery error)."""
     bdir = ctx.sub("bin")
     jobs, out = [], {}
     for c in cfgs:
         if c["name"] in out:
             continue
         out[c["name"]] = os.path.join(bdir, "fs_" + c["name"])
-        jobs.append({"src": HARNESS_SRC, "out": out[c["name"]], "flags": flags_of(c)})
-    core.build_many(ctx, jobs, max_workers=WORKERS)
+        jobs.append((c["name"], {"src": HARNESS_SRC, "out": out[c["name"]], "flags": flags_of(c), "cxx": FLAVOURS[c.get("fl", "")][0]}))
+
+    def one(job):
+        name, j = job
+        try:
+            core.build(ctx, j["src"], j["out"], j["flags"], True, j["cxx"])
+            return name, None
+        except MachineryError as x:
+            return name, str(x)
+
+    failed = {}
+    with ThreadPoolExecutor(max_workers=WORKERS) as ex:
+        for name, err in ex.map(one, jobs):
+            if err is not None:
+                failed[name] = err
+    if failed and not tolerate:
+        raise MachineryError(next(iter(failed.values())))
+    for name, err in failed.items():
+        out.pop(name, None)
+        ctx.notes.setdefault("driver_build_failures", {})[name] = err[-1500:]
     return out
+
+
+# ------------------------------------------------------------------ compile-time probes
+_RE_SIGROW = re.compile(r"^SIG[A-Z]*\((\w+),")
+
+
+def sig_probe(ctx, cfgs):
+    """The public interface as a table of static_asserts (harness/fixedstring/sig_probe.cpp): every overload the
+    conformance driver calls exists and returns the type std::basic_string returns.  A row that fails is a
+    VIOLATION of its own (the return types and overload sets are observable: 'every returned value ... equal
+    those of std::basic_string given the same calls'), found before the driver is built, so a changed signature
+    cannot turn into 'harness does not compile'.  Returns the number of failing (cfg, row) pairs."""
+    with open(SIGPROBE_SRC) as f:
+        rows = {i + 1: m.group(1) for i, line in enumerate(f) for m in [_RE_SIGROW.match(line)] if m}
+
+    def one(c):
+        cmd = [core.CXX, "-std=c++14", "-fsyntax-only", "-fmax-errors=0", "-ftrack-macro-expansion=0", "-Wno-deprecated-declarations",
+               "-I", core.INCLUDE, "-I", os.path.join(core.HARNESS, "common")] + [x for x in flags_of(c) if not x.startswith("-DFS_REF")] + [SIGPROBE_SRC]
+        rc, out = core.sh(cmd, timeout=600)
+        bad, other = {}, []
+        for line in out.splitlines():
+            m = re.match(r".*sig_probe\.cpp:(\d+):\d*:? (?:fatal )?(error|note): (.*)", line)
+            if not m:
+                continue
+            ln = int(m.group(1))
+            if ln in rows:
+                if m.group(2) == "error" or rows[ln] not in bad:
+                    bad.setdefault(rows[ln], m.group(3)[:300])
+            elif m.group(2) == "error":
+                other.append(line[:300])
+        if rc != 0 and not bad and not other:
+            other.append(out[-600:])
+        return c, rc, bad, other
+
+    nbad = 0
+    seen = set()
+    with ThreadPoolExecutor(max_workers=WORKERS) as ex:
+        for c, rc, bad, other in ex.map(one, cfgs):
+            ctx.notes.setdefault("signature_rows_checked", {})[c["name"]] = len(rows)
+            if rc == 0:
+                continue
+            nbad += len(bad) + (1 if other else 0)
+            key = (tuple(sorted(bad)), tuple(other[:1]))
+            if key in seen:          # the same rows fail for every configuration: one report is enough
+                continue
+            seen.add(key)
+            what = "; ".join("%s (%s)" % (r, msg) for r, msg in sorted(bad.items())[:8]) or "; ".join(other[:3])
+            ctx.violation("signature table harness/fixedstring/sig_probe.cpp, configuration %s: %d row(s) fail, i.e. an overload the property's "
+                          "calls need is missing or returns another type than std::basic_string's: %s" % (c["name"], len(bad) or 1, what),
+                          replay_lines=[json.dumps({"_meta": {"kind": "sig", "cfg": {k: c[k] for k in ("ct", "n", "strlen", "thr", "fl")}, "rows": sorted(bad)}})])
+    return nbad
+
+
+def prepare(ctx, cfgs):
+    """Signature table first, then the driver builds.  Returns {name: driver path} for the configurations whose
+    driver exists.  A driver that does not compile:
+      * after signature rows failed: expected (the driver calls what the rows call); the run goes on with the drivers
+        that could be built and ends with exit 1 on the rows;
+      * with an error inside xbasic_fixed_string.hpp (a member function body that does not instantiate for a call the
+        specification enables): that call does not compile - a VIOLATION of its own;
+      * otherwise the harness itself is broken: machinery error."""
+    distinct = {}
+    for c in cfgs:
+        if not c["ref"]:
+            distinct.setdefault((c["ct"], c["strlen"], c["thr"], c["layout"]), c)
+    sig_probe(ctx, list(distinct.values()))
+    drivers = build_drivers(ctx, cfgs, tolerate=True)
+    fails = ctx.notes.get("driver_build_failures", {})
+    if fails:
+        by_name = {c["name"]: c for c in cfgs}
+        lib = {n: e for n, e in fails.items() if re.search(r"xbasic_fixed_string\.hpp:\d+:\d+: error", e) and not by_name[n]["ref"]}
+        if lib:
+            n, e = sorted(lib.items())[0]
+            first = [l for l in e.splitlines() if "error" in l][:3]
+            c = by_name[n]
+            ctx.violation("a call the specification enables does not compile for configuration %s (%d configurations affected): %s" % (
+                n, len(lib), " | ".join(x.strip()[:300] for x in first)),
+                replay_lines=[json.dumps({"_meta": {"kind": "build", "cfg": {k: c[k] for k in ("ct", "n", "strlen", "thr", "fl")}}})])
+        if not ctx.violations:
+            raise MachineryError("harness does not compile: %s" % next(iter(fails.values())))
+        ctx.log("%d of %d drivers could not be built against this tree (%s); going on with the others" % (len(fails), len(fails) + len(drivers), ", ".join(sorted(fails))))
+    return drivers
 
 
 def wide_probe(ctx):
@@ -104,10 +345,103 @@ def run_driver(drv, script_path, trace_path, lean=False, timeout=1200):
     return p.returncode, p.stderr.decode(errors="replace")
 
 
+def retry_killed(fn, tries=3):
+    """A TLC process that is killed from outside (rc -9 / 137: the kernel's out-of-memory killer on a machine shared with
+    other JVMs) says nothing about the specification or the code: run it again after a pause instead of giving up."""
+    for i in range(tries):
+        try:
+            return fn()
+        except MachineryError as x:
+            if i == tries - 1 or _CLOSING or not re.search(r"rc=(-9|137|-15|143)\b", str(x)):
+                raise
+            time.sleep(10 * (i + 1))
+
+
+class stage:
+    """with stage(ctx, "name"): ...  records the CPU seconds (this process and the children it waited for) and the wall
+    seconds of a stage in the evidence (notes cpu_s / wall_s): on a shared machine only the CPU time says what a stage costs."""
+
+    def __init__(self, ctx, name):
+        self.ctx, self.name = ctx, name
+
+    def __enter__(self):
+        self.t, self.c = time.time(), sum(os.times()[:4])
+        return self
+
+    def __exit__(self, *a):
+        self.ctx.notes.setdefault("cpu_s", {})[self.name] = round(self.ctx.notes.get("cpu_s", {}).get(self.name, 0) + sum(os.times()[:4]) - self.c, 1)
+        self.ctx.notes.setdefault("stage_wall_s", {})[self.name] = round(self.ctx.notes.get("stage_wall_s", {}).get(self.name, 0) + time.time() - self.t, 1)
+        return False
+
+
+def _is_reset(line):
+    return line.lstrip().startswith('{"op":"Reset"')
+
+
+def run_script(drv, script_path, trace_path, max_restarts=25, timeout=1200):
+    """run_driver for scripts of many executions: when the driver stops inside one execution (crash, sanitizer
+    report, per-call CPU limit - the trace then ends with a Crash event that TLC rejects), it is started again
+    on the remaining executions (from the next Reset), so one crash costs one execution, not the rest of the file.
+    Returns the number of restarts."""
+    with open(script_path) as f:
+        script = [l for l in f if l.strip()]
+    start, n = 0, 0
+    out = open(trace_path, "w")
+    try:
+        while True:
+            part_s, part_t = script_path + ".part", trace_path + ".part"
+            if start == 0:
+                part_s = script_path
+            else:
+                with open(part_s, "w") as f:
+                    f.writelines(script[start:])
+            try:
+                run_driver(drv, part_s, part_t, timeout=timeout)
+                hung = False
+            except subprocess.TimeoutExpired:
+                hung = True
+            with open(part_t, errors="replace") as f:
+                got = [l for l in f if l.strip()]
+            crashed = bool(got) and '"op":"Crash"' in got[-1]
+            if not crashed and (hung or len(got) < len(script) - start):
+                # killed without a chance to say so: the trace must still end in an event no specification action matches
+                got.append('{"op":"Crash","why":"%s"}\n' % ("driver did not finish within %ds" % timeout if hung else "driver stopped without a word"))
+            done = len(got) - 1 if (got and '"op":"Crash"' in got[-1]) else len(got)
+            if got and '"op":"Crash"' in got[-1] and start + done < len(script):
+                # name the call the driver died in: a replay of this execution has to make it
+                try:
+                    cr = json.loads(got[-1])
+                    cr["call"] = json.loads(script[start + done])
+                    got[-1] = json.dumps(cr, separators=(",", ":")) + "\n"
+                except Exception:
+                    pass
+            out.writelines(got)
+            os.remove(part_t)
+            if done >= len(script) - start:
+                return n
+            nxt = start + done + 1
+            while nxt < len(script) and not _is_reset(script[nxt]):
+                nxt += 1
+            if nxt >= len(script) or n >= max_restarts:
+                return n
+            start, n = nxt, n + 1
+    finally:
+        out.close()
+
+
 def write_script(path, lines):
     with open(path, "w") as f:
         for l in lines:
             f.write(json.dumps(l, separators=(",", ":")) + "\n")
+
+
+def merge_by_cfg(prefix, scripts):
+    """[(name, cfg, events)] -> one script per configuration (every script starts with its own Reset): one driver run and
+    one TLC run per configuration instead of one per script"""
+    by = {}
+    for name, c, ev in scripts:
+        by.setdefault(c["name"], (c, []))[1].extend(ev)
+    return [("%s-%s" % (prefix, n), c, ev) for n, (c, ev) in sorted(by.items())]
 
 
 def chunk_by_reset(lines, nchunks):
@@ -120,7 +454,15 @@ def chunk_by_reset(lines, nchunks):
 
 
 # ------------------------------------------------------------------ TLC with streamed output
-def tlc_stream(ctx, module, cfg, name, workers=None, heap="6g", timeout=1500):
+_LIVE = []          # TLC processes of background enumerations that are still running
+_CLOSING = []       # non-empty once the run is ending: enumerations still running are killed, not waited for
+
+
+def tlc_stream(ctx, module, cfg, name, workers=None, heap="2g", timeout=1500):
+    return retry_killed(lambda: _tlc_stream(ctx, module, cfg, name, workers, heap, timeout))
+
+
+def _tlc_stream(ctx, module, cfg, name, workers=None, heap="2g", timeout=1500):
     """Like core.tlc but TLC's output goes to a file (the Emit lines of an S->C enumeration are
     hundreds of megabytes).  Returns dict(outfile, generated, distinct, depth, wall_s)."""
     ctx._n += 1
@@ -131,11 +473,19 @@ def tlc_stream(ctx, module, cfg, name, workers=None, heap="6g", timeout=1500):
            os.path.join(core.SPECS, module + ".tla")]
     t = time.time()
     with open(outfile, "w") as f:
+        p = subprocess.Popen(cmd, stdout=f, stderr=subprocess.STDOUT, cwd=meta)
+        _LIVE.append(p)
         try:
-            p = subprocess.run(cmd, stdout=f, stderr=subprocess.STDOUT, timeout=timeout, cwd=meta)
-            rc = p.returncode
+            rc = p.wait(timeout=timeout)
         except subprocess.TimeoutExpired:
+            p.kill()
+            p.wait()
             raise MachineryError("TLC timed out after %ss: %s (see %s)" % (timeout, name, outfile))
+        finally:
+            if p in _LIVE:
+                _LIVE.remove(p)
+    if _CLOSING:
+        raise MachineryError("TLC enumeration %s abandoned (the run is ending)" % name)
     tail = subprocess.run(["tail", "-n", "40", outfile], stdout=subprocess.PIPE, text=True, errors="replace").stdout
     # the summary lines are not Emit lines
     tail = "\n".join(l for l in tail.splitlines() if not l.startswith('"@E@'))
@@ -156,6 +506,23 @@ def tlc_stream(ctx, module, cfg, name, workers=None, heap="6g", timeout=1500):
 
 # ------------------------------------------------------------------ S->C
 _RE_PRE = re.compile(r'\\"p\\":(\[\[[^\]]*\],\[[^\]]*\]\])')
+_RE_TOK = re.compile(r'\\"(\w+)\\":(\[[^\]]*\]|[^,{}\[\]]+)')
+
+
+def _call_key(line):
+    """A canonical text of (pre-state, call) of an Emit line, without parsing it: TLC prints the fields of one and the
+    same record in different orders (normalised or not), e.g. in the two lines that give the two allowed outcomes of
+    one call - they must fall on the same side of a sample."""
+    cut = line.find('\\"res\\"')
+    a = line.find('\\"l\\":')
+    m = _RE_PRE.search(line)
+    return (m.group(1) if m else "") + "|" + ",".join(sorted("%s:%s" % t for t in _RE_TOK.findall(line[a:cut])))
+
+
+_RE_OP = re.compile(r'\\"l\\":\{\\"op\\":\\"(\w+)\\"')
+KEEP_N4 = 0.2            # thorough tier, N = 4: share of the calls of a large stratum that is replayed
+STRATUM_MIN = 120        # S->C samples: strata (pre-state, operation) up to this size are replayed completely
+S2C_PARTS = 16           # fixed, so that samples and set-up histories do not depend on the number of workers
 
 
 def split_emitted(outfile, nparts, workdir):
@@ -203,24 +570,75 @@ def _dirty_setup(k, v, cfgd, rnd):
             {"op": "AppendSeq", "k": k, "a": {"ov": "append", "sk": "ptrn", "src": v}}]
 
 
+def moved_objects(call):
+    """0-based indices of the objects the call takes as rvalues: their state afterwards is valid but unspecified"""
+    a, k = call.get("a", {}), call.get("k", 1) - 1
+    out = set()
+    if a.get("sk") == "objm" or a.get("rk") == "objm":
+        out.add(1 - k)
+    if a.get("lk") == "selfm":
+        out.add(k)
+    return out
+
+
+def valid_projection(pj, n):
+    """an object in a valid state, whatever its value: every observer agrees with every other"""
+    c = pj.get("chars")
+    return (isinstance(c, list) and pj.get("size") == len(c) == pj.get("len") == pj.get("dist") and len(c) <= n and pj.get("term") == 0
+            and pj.get("fwd") == c and pj.get("rev") == c[::-1] and pj.get("empty") == (len(c) == 0) and pj.get("g") is True and pj.get("max") == n)
+
+
+def same_outcome(call, o, res, q, n):
+    """the observed event o equals the outcome (res, q) TLC printed; a moved-from operand may hold any valid string"""
+    if o["res"] != res:
+        return False
+    mv = moved_objects(call) if res.get("exc") == "none" else ()
+    if not mv:
+        return o["st"] == q
+    return all(valid_projection(o["st"]["o"][i], n) if i in mv else o["st"]["o"][i] == q["o"][i] for i in (0, 1))
+
+
 def s2c_worker(args):
     """One part of an S->C replay: parse the Emit lines, build a script, run the driver, compare.
     Returns (stats, mismatches)."""
     part, drv, cfgd, workdir, seed, keep, tag = args
+    smin = STRATUM_MIN
+    if isinstance(keep, tuple):
+        keep, smin = keep
     rnd = random.Random(seed)
     by_pre = {}
     projs = {}              # abstract string (tuple) -> expected projection of an object holding it
     ntrans = 0
     opcount = {}
+    # Stratified sample (keep < 1): a stratum is (pre-state, operation).  Strata of at most STRATUM_MIN calls are
+    # replayed completely, larger ones with probability max(keep, STRATUM_MIN / size) per call; the choice is a hash
+    # of (seed, call text), so it does not depend on the order in which TLC's workers printed the lines and the two
+    # allowed outcomes of one call stay together.  Only chosen lines are parsed.
+    strata = {}
+    if keep < 1.0:
+        with open(part, errors="replace") as f:
+            for line in f:
+                m, mo = _RE_PRE.search(line), _RE_OP.search(line)
+                key = (m.group(1) if m else "", mo.group(1) if mo else "")
+                strata[key] = strata.get(key, 0) + 1
+    nsampled = sum(1 for v in strata.values() if v > smin)
     with open(part, errors="replace") as f:
         for line in f:
+            if keep < 1.0:
+                m, mo = _RE_PRE.search(line), _RE_OP.search(line)
+                size = strata[(m.group(1) if m else "", mo.group(1) if mo else "")]
+                if size > smin:
+                    pr = max(keep, smin / float(size))
+                    if (zlib.crc32(("%d|" % seed + _call_key(line)).encode()) & 0xFFFFFF) / float(0x1000000) >= pr:
+                        ntrans += 1
+                        continue
             t = json.loads(line.rstrip()[4:-1].replace('\\"', '"'))          # "@E@{\"c\":..}" -> {"c":..}
             pre = (tuple(t["p"][0]), tuple(t["p"][1]))
             l = t["l"]
             for pj in t["q"]["o"]:
                 projs.setdefault(tuple(pj["chars"]), pj)
             call = {"op": l["op"], "k": l["k"], "a": l["a"]}
-            if avoid(call, (len(pre[0]), len(pre[1]))) or (call["op"] in IO_OPS and not cfgd["io"]):
+            if avoid(call, (len(pre[0]), len(pre[1])), pre) or (call["op"] in IO_OPS and not cfgd["io"]):
                 continue
             ntrans += 1
             key = json.dumps(call, sort_keys=True, separators=(",", ":"))
@@ -228,15 +646,14 @@ def s2c_worker(args):
             if key in d:
                 d[key][1].append((l["res"], t["q"]))          # a second allowed outcome of the same call
             else:
-                # a seeded sample that does not depend on the order in which TLC's workers printed the lines
-                if keep < 1.0 and (zlib.crc32(("%d|%s|%s" % (seed, pre, key)).encode()) & 0xFFFFFF) / float(0x1000000) >= keep:
-                    continue
                 d[key] = (call, [(l["res"], t["q"])], key)
     script, expect = [reset_event(cfgd)], [None]
     texts = {}              # script index -> JSON text of the call (already serialised above)
     nfailing = 0
+    gstarts = []            # script indices where a pre-state group begins (both objects are set up afresh there)
     for pre in sorted(by_pre):
         calls = sorted(by_pre[pre].values(), key=lambda c: (c[0]["op"] not in OBSERVERS, c[2]))
+        gstarts.append(len(script))
         dirty = [True, True]
         last_setup = [[], []]
         for call, outcomes, calltext in calls:
@@ -252,6 +669,9 @@ def s2c_worker(args):
             texts[len(script) - 1] = calltext
             expect.append(("call", pre, outcomes, last_setup[0] + last_setup[1]))
             opcount[call["op"]] = opcount.get(call["op"], 0) + 1
+            if call["a"].get("sk") in ALIAS_KINDS or call["a"].get("rk") == "self" or str(call["a"].get("ov", "")).endswith("self"):
+                ak = "alias:%s/%s" % (call["op"], call["a"].get("sk") or call["a"].get("ov") or "self")
+                opcount[ak] = opcount.get(ak, 0) + 1
             if outcomes[0][0]["exc"] != "none":
                 nfailing += 1
             if call["op"] not in OBSERVERS:
@@ -259,45 +679,81 @@ def s2c_worker(args):
                 a = call["a"]
                 if call["op"] in PAIR_MUTATORS or a.get("sk") == "objm" or a.get("lk") == "selfm" or a.get("rk") == "objm":
                     dirty[0] = dirty[1] = True
-    sp = os.path.join(workdir, tag + ".script")
-    tp = os.path.join(workdir, tag + ".ndjson")
-    with open(sp, "w") as f:
-        for i, ev in enumerate(script):
-            f.write((texts.get(i) or json.dumps(ev, separators=(",", ":"))) + "\n")
-    rc, err = run_driver(drv, sp, tp, lean=True)
     mism = []
     nev = 0
-    with open(tp, errors="replace") as f:
-        obs_lines = [x for x in f if x.strip()]
-    for i, exp in enumerate(expect):
-        if i >= len(obs_lines):
-            # the driver died (sanitizer report / crash): the event it died in is the finding
-            ev = script[i]
-            mism.append({"why": "driver stopped (crash or sanitizer report): %s" % err[-400:], "call": ev, "setup": exp[3] if exp and exp[0] == "call" else [],
-                         "obs": obs_lines[-1][:300] if obs_lines else ""})
-            break
-        if exp is None:
-            continue
+    start, restarts = 0, 0
+    while start < len(script):
+        sp = os.path.join(workdir, tag + ("" if not restarts else "-r%d" % restarts) + ".script")
+        tp = sp[:-7] + ".ndjson"
+        with open(sp, "w") as f:
+            if start:
+                f.write(json.dumps(reset_event(cfgd), separators=(",", ":")) + "\n")
+            for i in range(start, len(script)):
+                f.write((texts.get(i) or json.dumps(script[i], separators=(",", ":"))) + "\n")
         try:
-            o = json.loads(obs_lines[i])
-        except Exception:
-            mism.append({"why": "unparsable driver output", "call": script[i], "setup": exp[3] if exp[0] == "call" else [], "obs": obs_lines[i][:300]})
+            rc, err = run_driver(drv, sp, tp, lean=True)
+        except subprocess.TimeoutExpired:
+            rc, err = 124, "driver did not finish in time"
+        with open(tp, errors="replace") as f:
+            obs_lines = [x for x in f if x.strip()]
+        if start:
+            obs_lines = obs_lines[1:]            # the extra Reset
+        stopped = None                          # script index of the event the driver died in
+        for j, line in enumerate(obs_lines):
+            i = start + j
+            if i >= len(script):
+                break
+            exp = expect[i]
+            su = exp[3] if exp and exp[0] == "call" else []
+            if '"op":"Crash"' in line[:40]:
+                try:
+                    why = json.loads(line).get("why")
+                except Exception:
+                    why = "?"
+                mism.append({"why": "driver crashed: %s %s" % (why, err[-400:]), "call": script[i], "setup": su, "obs": ""})
+                stopped = i
+                break
+            if exp is None:
+                continue
+            try:
+                o = json.loads(line)
+            except Exception:
+                mism.append({"why": "unparsable driver output", "call": script[i], "setup": su, "obs": line[:300]})
+                stopped = i
+                break
+            nev += 1
+            if exp[0] == "setup":
+                want = projs.get(exp[2])
+                if want is not None and o["st"]["o"][exp[1]] != want:
+                    sus = last_setup_of(script, i)
+                    mism.append({"why": "state after set-up differs", "call": sus[-1], "setup": sus[:-1], "obs": json.dumps(o["st"]["o"][exp[1]]), "want": json.dumps(want)})
+                continue
+            ok = any(same_outcome(script[i], o, res, q, cfgd["n"]) for res, q in exp[2])
+            if not ok:
+                mism.append({"why": "result or state differs from the specification", "call": script[i], "setup": exp[3],
+                             "obs": json.dumps({"res": o["res"], "st": o["st"]}), "want": json.dumps({"res": exp[2][0][0], "st": exp[2][0][1]})})
+                if len(mism) <= 2:
+                    # everything the driver did since this pre-state group began: used when the minimal re-execution
+                    # (set-up + call) does not reproduce, i.e. when an earlier call of the group left hidden damage
+                    g0 = max([g for g in gstarts if g <= i] or [1])
+                    mism[-1]["group"] = script[g0:i + 1]
+        if stopped is None and start + len(obs_lines) < len(script):
+            # the driver died without a Crash line: the event it died in is the finding
+            i = start + len(obs_lines)
+            exp = expect[i]
+            mism.append({"why": "driver stopped (crash or sanitizer report): %s" % err[-400:], "call": script[i],
+                         "setup": exp[3] if exp and exp[0] == "call" else [], "obs": obs_lines[-1][:300] if obs_lines else ""})
+            stopped = i
+        if stopped is None:
             break
-        if o.get("op") == "Crash":
-            mism.append({"why": "driver crashed: %s %s" % (o.get("why"), err[-400:]), "call": script[i], "setup": exp[3] if exp[0] == "call" else [], "obs": ""})
+        # go on with the next pre-state group in a fresh driver process (a crash costs one group, not the part)
+        nxt = [g for g in gstarts if g > stopped]
+        restarts += 1
+        if not nxt or restarts > 6 or len(mism) >= 400:
             break
-        nev += 1
-        if exp[0] == "setup":
-            want = projs.get(exp[2])
-            if want is not None and o["st"]["o"][exp[1]] != want:
-                su = last_setup_of(script, i)
-                mism.append({"why": "state after set-up differs", "call": su[-1], "setup": su[:-1], "obs": json.dumps(o["st"]["o"][exp[1]]), "want": json.dumps(want)})
-            continue
-        ok = any(o["res"] == res and o["st"] == q for res, q in exp[2])
-        if not ok:
-            mism.append({"why": "result or state differs from the specification", "call": script[i], "setup": exp[3],
-                         "obs": json.dumps({"res": o["res"], "st": o["st"]}), "want": json.dumps({"res": exp[2][0][0], "st": exp[2][0][1]})})
-    return {"transitions": ntrans, "replayed": sum(opcount.values()), "events": nev, "failing": nfailing, "ops": opcount}, mism[:400]
+        start = nxt[0]
+    return {"transitions": ntrans, "replayed": sum(v for k, v in opcount.items() if not k.startswith("alias:")), "events": nev, "failing": nfailing, "ops": opcount,
+            "strata": len(strata), "strata_sampled": nsampled}, mism[:400]
 
 
 def last_setup_of(script, i):
@@ -314,28 +770,61 @@ def signature(m):
     return "%s/%s/%s/%s" % (c["op"], a.get("sk", a.get("ov", a.get("path", a.get("kind", "")))), a.get("fam", a.get("rop", a.get("lk", ""))), m["why"][:20])
 
 
-def s2c(ctx, targets, tlc_cfgs, workers=None):
-    """Enumerate with TLC once, replay on every target (cfgd, driver, keep): everything, or a seeded
-    fraction `keep`, of the enumerated calls.  Returns {name: (stats, mismatches)}."""
-    nparts = workers or WORKERS
-    out = {c["name"]: ({"transitions": 0, "replayed": 0, "events": 0, "failing": 0, "ops": {}, "tlc_generated": 0}, []) for c, _, _ in targets}
+def s2c_enumerate(ctx, cfg):
+    """TLC writes every transition of FixedString.tla under cfg (Emit lines); they are distributed over S2C_PARTS files
+    by pre-state.  Independent of the include tree, so the checks start these runs in the background at once."""
+    # (TLC holds all successors of one abstract state at a time: tens of thousands at N = 4, with their JSON texts)
+    r = tlc_stream(ctx, "FixedStringMC", cfg, name="s2c-" + cfg[:-4], workers=max(2, WORKERS // 3), heap="6g" if re.search(r"_[ps]4_", cfg) else "2g")
+    wd = ctx.sub("s2c-" + cfg[:-4])
+    parts, n = split_emitted(r["outfile"], S2C_PARTS, wd)
+    os.remove(r["outfile"])
+    with open(r["outfile"], "w") as f:
+        f.write("(%d Emit lines were distributed to %s and removed after the replay)\n" % (n, wd))
+    return r, parts, n
+
+
+class Enumerations:
+    """S->C enumerations started ahead of their use (at most `ahead` TLC processes at a time)"""
+
+    def __init__(self, ctx, cfgs, ahead=3):
+        self.pool = ThreadPoolExecutor(max_workers=ahead)
+        self.fut = {cfg: self.pool.submit(s2c_enumerate, ctx, cfg) for cfg in cfgs}
+
+    def get(self, cfg):
+        return self.fut[cfg].result()
+
+    def close(self):
+        """Nothing of an enumeration may outlive the run (an exception on the way included): cancel what has not
+        started, kill what is running."""
+        _CLOSING.append(1)
+        for f in self.fut.values():
+            f.cancel()
+        for p in list(_LIVE):
+            try:
+                p.kill()
+            except Exception:
+                pass
+        self.pool.shutdown(wait=True)
+        del _CLOSING[:]
+
+
+def s2c(ctx, targets, tlc_cfgs, workers=None, enums=None):
+    """Enumerate with TLC once, replay on every target (cfgd, driver, keep): everything, or a stratified
+    sample (see s2c_worker), of the enumerated calls.  Returns {name: (stats, mismatches)}."""
+    out = {c["name"]: ({"transitions": 0, "replayed": 0, "events": 0, "failing": 0, "ops": {}, "tlc_generated": 0, "strata": 0, "strata_sampled": 0}, [])
+           for c, _, _ in targets}
     for cfg in tlc_cfgs:
-        r = tlc_stream(ctx, "FixedStringMC", cfg, name="s2c-" + cfg[:-4])
-        wd = ctx.sub("s2c-" + cfg[:-4])
-        parts, n = split_emitted(r["outfile"], nparts, wd)
-        os.remove(r["outfile"])
-        with open(r["outfile"], "w") as f:
-            f.write("(%d Emit lines were distributed to %s and removed after the replay)\n" % (n, wd))
+        r, parts, n = enums.get(cfg) if enums else s2c_enumerate(ctx, cfg)
         ctx.cov["states"] += r["distinct"]
         ctx.cov["transitions"] += r["generated"]
         jobs = []
         for c, drv, keep in targets:
             twd = ctx.sub("s2c-" + cfg[:-4] + "/" + c["name"])
             jobs += [(p, drv, c, twd, ctx.seed * 7919 + i, keep, "part-%02d" % i) for i, p in enumerate(parts)]
-        with ProcessPoolExecutor(max_workers=nparts) as ex:
+        with ProcessPoolExecutor(max_workers=workers or WORKERS) as ex:
             for job, (st, mm) in zip(jobs, ex.map(s2c_worker, jobs)):
                 tot, mism = out[job[2]["name"]]
-                for k in ("transitions", "replayed", "events", "failing"):
+                for k in ("transitions", "replayed", "events", "failing", "strata", "strata_sampled"):
                     tot[k] += st[k]
                 for op, cnt in st["ops"].items():
                     tot["ops"][op] = tot["ops"].get(op, 0) + cnt
@@ -350,7 +839,7 @@ def s2c(ctx, targets, tlc_cfgs, workers=None):
     return out
 
 
-def confirm_mismatches(ctx, cfgd, drv, mism, classify, max_signatures=30):
+def confirm_mismatches(ctx, cfgd, drv, mism, classify, max_signatures=8):
     """Every S->C mismatch is re-run as a minimal execution (Reset, set-up, call) and validated by TLC
     against FixedStringTrace: only what TLC rejects there is reported (and it repeats by construction)."""
     if not mism:
@@ -369,9 +858,22 @@ def confirm_mismatches(ctx, cfgd, drv, mism, classify, max_signatures=30):
     sp = os.path.join(d, cfgd["name"] + "-%d.script" % ctx._n)
     tp = sp[:-7] + ".ndjson"
     write_script(sp, lines)
-    run_driver(drv, sp, tp)
+    run_script(drv, sp, tp)
     before = len(ctx.violations) + len(ctx.known)
-    res = core.validate_traces(ctx, "FixedStringTrace", "FixedStringTrace.cfg", [tp], classify=classify, max_restarts=max_signatures + 2, env=TLC_ENV)
+    res = validate_many(ctx, [tp], classify, max_restarts=max_signatures + 2)
+    if len(ctx.violations) + len(ctx.known) == before and not any(not r["accepted"] for _, r in res):
+        # second attempt with the whole history of the pre-state group in which the first mismatches were seen
+        lines = []
+        for m in mism:
+            if "group" in m:
+                lines.append(reset_event(cfgd))
+                lines.extend(m["group"])
+        if lines:
+            sp2 = sp[:-7] + "-group.script"
+            tp2 = sp2[:-7] + ".ndjson"
+            write_script(sp2, lines)
+            run_script(drv, sp2, tp2)
+            res = validate_many(ctx, [tp2], classify, max_restarts=3)
     if len(ctx.violations) + len(ctx.known) == before and not any(not r["accepted"] for _, r in res):
         raise MachineryError("S->C replay of %s found %d mismatches (%s) that trace validation does not confirm; first: %s" % (
             cfgd["name"], len(mism), ", ".join(sorted(by_sig)[:6]), json.dumps(mism[0])[:1500]))
@@ -384,14 +886,21 @@ class Gen:
 
     def __init__(self, rnd, cfgd, fail_bias=0.15, allow_known=False):
         self.r, self.c = rnd, cfgd
+        # XTL_NO_EXCEPTIONS build: a failing check terminates the program, so no call may fail (positions stay in range)
+        self.nothrow = cfgd.get("fl") == "x"
+        if self.nothrow:
+            fail_bias = 0.0
         self.N = cfgd["n"]
         self.thr = bool(cfgd["thr"])
         self.strlen = cfgd["layout"] == "strlen"
         self.len = [0, 0]
         self.fail_bias = fail_bias           # how often a call that must throw is kept
         self.allow_known = allow_known
-        hi = 200 if cfgd["cw"] == 1 else 0x3b1
-        self.alpha = [97, 97, 98, 98, 99, hi, 32]
+        # code units as the driver logs them (see units<> in driver.cpp): wchar_t is signed (negative code units sort first, as
+        # std::char_traits<wchar_t>::lt has it), char32_t's top quarter 0xC0000000.. is written 0x40000000..
+        hi = {"char": [200, 255, 128], "char16_t": [0x3b1, 0xFFFF, 0x8000], "wchar_t": [0x3b1, -1, -2147483648, 0x10FFFF],
+              "char32_t": [0x3b1, 0x7FFFFFFF, 0x40000000, 0x10FFFF]}[cfgd["ct"]]
+        self.alpha = [97, 97, 98, 98, 99, 32] + hi
         self.pending = []
 
     # ---- argument pickers
@@ -402,6 +911,8 @@ class Gen:
 
     def pos(self, n):
         c = [0, 0, 1, n - 1, n, n, n + 1, n + 2, NPOS, self.r.randint(0, max(n, 0)), n // 2]
+        if self.nothrow:
+            c = [x for x in c if 0 <= x <= n]
         return self.r.choice([x for x in c if x >= 0 or x == NPOS])
 
     def goodpos(self, n):
@@ -473,12 +984,118 @@ class Gen:
         k = self.r.randrange(2)
         return self.ev("Iterate", k, kind="cstr")
 
+    # ---- calls whose source is (part of) the object itself
+    def alias_desc(self, la, sk):
+        r = self.r
+        if sk == "self":
+            return []
+        off = r.choice([0, 0, la, la // 2, max(la - 1, 0), r.randint(0, la)])
+        if sk == "selfz":
+            return [off]
+        return [off, min(la - off, r.choice([0, 1, la - off, la - off, max(la - off - 1, 0), r.randint(0, la - off)]))]
+
+    def alias_emit(self, ev, k, rng, newlen):
+        """settle + avoidance of the open aliasing finding; for a C string inside the object the object is first
+        given NUL-free contents of the same length (the generator tracks lengths, not characters)"""
+        la = self.len[k]
+        # (the predicate needs lengths and NUL positions only: a C string inside the object is made NUL-free below)
+        if avoid(ev, self.len, ([1] * self.len[0], [1] * self.len[1])) and not self.allow_known:
+            return None
+        if not self.settle(k, rng, newlen):
+            return None
+        if ev["a"].get("sk") == "selfz" and not self.strlen:
+            self.pending.append(ev)
+            return self.ev("AssignSeq", k, ov="assign", sk="ptrn", src=[self.chr(False) for _ in range(la)])
+        return ev
+
+    def alias_step(self, k):
+        r, N = self.r, self.N
+        la = self.len[k]
+        t = r.randrange(13)
+        sub = lambda p, n: self.sub_len(la, p, n)
+        if t == 0:
+            p, n = self.pos(la), r.choice([DFLT, self.cnt(la, la)])
+            g = sub(p, n)
+            app = r.random() < 0.5
+            return self.alias_emit(self.ev("AppendSub" if app else "AssignSub", k, sk="self", src=[], pos=p, n=n), k, g is None,
+                                   None if g is None else (la + g if app else g))
+        if t in (1, 2):
+            sk = r.choice(["self", "selfp", "selfz", "selfit"])
+            app = t == 2
+            ov = r.choice(["assign", "op"]) if sk in ("self", "selfz") else "assign"
+            d = self.alias_desc(la, sk)
+            g = la if sk == "self" else la - d[0] if sk == "selfz" else d[1]
+            if app:
+                return self.alias_emit(self.ev("AppendSeq", k, ov="append" if ov == "assign" else "op", sk=sk, src=d), k, False, la + g)
+            return self.alias_emit(self.ev("AssignSeq", k, ov=ov, sk=sk, src=d), k, False, g)
+        if t == 3:
+            sk = r.choice(["self", "selfp", "selfz"])
+            d = self.alias_desc(la, sk)
+            g = la if sk == "self" else la - d[0] if sk == "selfz" else d[1]
+            idx = self.pos(la)
+            return self.alias_emit(self.ev("InsertSeq", k, idx=idx, sk=sk, src=d), k, idx == NPOS or idx > la, la + g)
+        if t == 4:
+            idx, p, n = self.pos(la), self.pos(la), r.choice([DFLT, self.cnt(la, N - la)])
+            g = sub(p, n)
+            bad = idx == NPOS or idx > la or g is None
+            if bad and g is not None and la + g > N and not self.thr:
+                return None
+            return self.alias_emit(self.ev("InsertSub", k, idx=idx, sk="self", src=[], pos=p, n=n), k, bad, la + (g or 0))
+        if t == 5:
+            d = self.alias_desc(la, "selfit")
+            return self.alias_emit(self.ev("InsertItSeq", k, it=self.goodpos(la), sk="selfit", src=d), k, False, la + d[1])
+        if t in (6, 7, 8):
+            p, n = self.pos(la), self.cnt(la, la)
+            er = sub(p, n)
+            if t == 6:
+                sk = r.choice(["self", "selfp", "selfz"])
+                d = self.alias_desc(la, sk)
+                g = la if sk == "self" else la - d[0] if sk == "selfz" else d[1]
+                return self.alias_emit(self.ev("Replace", k, pos=p, n=n, sk=sk, src=d), k, er is None, la - (er or 0) + g)
+            if t == 7:
+                p2, n2 = self.pos(la), r.choice([DFLT, self.cnt(la, N - la + (er or 0))])
+                g = sub(p2, n2)
+                return self.alias_emit(self.ev("ReplaceSub", k, pos=p, n=n, sk="self", src=[], pos2=p2, n2=n2), k, er is None or g is None,
+                                       la - (er or 0) + (g or 0))
+            f = self.goodpos(la)
+            l = r.choice([f, f, la, min(f + 1, la), r.randint(f, la)])
+            sk = r.choice(["self", "selfp", "selfz", "selfit"])
+            d = self.alias_desc(la, sk)
+            g = la if sk == "self" else la - d[0] if sk == "selfz" else d[1]
+            return self.alias_emit(self.ev("ReplaceIt", k, f=f, l=l, sk=sk, src=d), k, False, la - (l - f) + g)
+        if t == 9:
+            sk = r.choice(["self", "selfp", "selfz"])
+            d = self.alias_desc(la, sk)
+            fam = r.choice(["find", "rfind", "ffo", "ffno", "flo", "flno"])
+            p = self.pos(la) if sk == "selfp" else r.choice([DFLT, self.pos(la)])
+            return self.alias_emit(self.ev("Find", k, fam=fam, sk=sk, src=d, pos=p), k, False, la)
+        if t == 10:
+            u = r.randrange(4)
+            if u == 0:
+                sk = r.choice(["self", "selfz"])
+                return self.alias_emit(self.ev("Compare", k, sk=sk, src=self.alias_desc(la, sk)), k, False, la)
+            if u == 1:
+                sk = r.choice(["self", "selfp", "selfz"])
+                return self.alias_emit(self.ev("Compare1", k, pos1=self.pos(la), n1=self.cnt(la, la), sk=sk, src=self.alias_desc(la, sk)), k, False, la)
+            if u == 2:
+                return self.alias_emit(self.ev("Compare2", k, pos1=self.pos(la), n1=self.cnt(la, la), sk="self", src=[], pos2=self.pos(la),
+                                               n2=r.choice([DFLT, self.cnt(la, la)])), k, False, la)
+            sk = r.choice(["self", "selfz"])
+            return self.alias_emit(self.ev("Rel", k, rop=r.choice(["eq", "ne", "lt", "le", "gt", "ge"]), sk=sk, src=self.alias_desc(la, sk)), k, False, la)
+        if t == 11:
+            if 2 * la > N and (not self.thr or r.random() > self.fail_bias * 3):
+                return None
+            return self.ev("Concat", k, lk="self", rk="self", src=[])
+        return self.ev("Swap", k, ov=r.choice(["memberself", "freeself"]))
+
     def try_step(self):
         r, N = self.r, self.N
         k = r.randrange(2)
         o = 1 - k
         la, lb = self.len[k], self.len[o]
         room = N - la
+        if r.random() < 0.09:
+            return self.alias_step(k)
         c = r.random()
         # ---------------- construction / assignment
         if c < 0.10:
@@ -526,7 +1143,10 @@ class Gen:
         if c < 0.17:
             t = r.randrange(6)
             cc = r.randrange(2)
-            if t == 0: return self.ev("At", k, c=cc, i=self.pos(la))
+            if t == 0:
+                i = self.pos(la)
+                if self.nothrow and i >= la: return None
+                return self.ev("At", k, c=cc, i=i)
             if t == 1: return self.ev("Index", k, c=cc, i=r.choice([0, la, la // 2, max(la - 1, 0)]))
             if t == 2 and la > 0: return self.ev(r.choice(["Front", "Back"]), k, c=cc)
             if t == 3 and la > 0:
@@ -791,7 +1411,7 @@ def sim_scripts(ctx, tlc_cfg, cfgd, num, depth, name):
             l = st["last"]
             ev = {"op": l["op"], "k": l["k"], "a": _plain(l["a"])}
             po = st["pre"]["obj"]
-            if avoid(ev, (len(po[0]), len(po[1]))) or ev["op"] == "Nav":
+            if avoid(ev, (len(po[0]), len(po[1])), po) or ev["op"] == "Nav":
                 ok = False        # the rest of this walk depends on a call that is not to be made: cut it here
                 break
             lines.append(ev)
@@ -809,6 +1429,90 @@ def _plain(v):
 
 
 # ------------------------------------------------------------------ classification / replay
+def effective_findings(pid):
+    """known_findings.json entries of this property plus the entries this check proposes (PROPOSED_OPEN) that are
+    not listed there yet; the latter carry "pending": True."""
+    listed = core.load_findings(pid)
+    try:
+        with open(os.path.join(core.ROOT, "known_findings.json")) as f:
+            all_ids = {x.get("id") for x in json.load(f).get("open", [])}
+    except Exception:
+        all_ids = set()
+    out = list(listed)
+    for e in PROPOSED_OPEN:
+        if e["id"] not in {x.get("id") for x in listed}:
+            e2 = dict(e)
+            e2["pending"] = e["id"] not in all_ids
+            out.append(e2)
+    return out
+
+
+def probe_pending(ctx, findings, drivers):
+    """Run the probes of the multi-probe entries (PROPOSED_OPEN format) on the tree under test and validate them
+    against L1.  An entry with a rejected probe is ACTIVE (its class is avoided by the generators and reported as
+    KNOWN-FINDING / PENDING-FINDING); an entry whose probes are all accepted is inactive: the defect is repaired
+    on this tree, nothing is avoided, every rejection in its class is a VIOLATION."""
+    ACTIVE.clear()
+    items = []
+    for e in findings:
+        for i, pr in enumerate(e.get("probes", [])):
+            items.append((e, i, pr, make_cfg(**pr["cfg"])))
+    if not items:
+        return
+    need = [c for _, _, _, c in items if c["name"] not in drivers]
+    if need:
+        drivers.update(build_drivers(ctx, need, tolerate=True))
+    d = ctx.sub("probes")
+
+    def one(it):
+        e, i, pr, c = it
+        if c["name"] not in drivers:
+            return it, None
+        sp = os.path.join(d, "%s-%d.script" % (e["id"], i))
+        tp = sp[:-7] + ".ndjson"
+        write_script(sp, pr["script"])
+        run_script(drivers[c["name"]], sp, tp)
+        r = validate_one(ctx, tp, explain=False)
+        return it, r["accepted"]
+
+    res = {}
+    with ThreadPoolExecutor(max_workers=max(1, WORKERS // 2)) as ex:
+        for (e, i, pr, c), ok in ex.map(one, items):
+            if ok is not None:
+                res.setdefault(e["id"], []).append(ok)
+    for e in findings:
+        if "probes" not in e:
+            continue
+        oks = res.get(e["id"], [])
+        ctx.notes.setdefault("finding_probes", {})[e["id"]] = {"accepted": sum(1 for x in oks if x), "rejected": sum(1 for x in oks if not x)}
+        if any(not x for x in oks):
+            ACTIVE.add(e["id"])
+            text = "%s (%s)" % (e["key"], e["what"])
+            if e.get("pending"):
+                ctx.notes.setdefault("pending_findings", [])
+                if text not in ctx.notes["pending_findings"]:
+                    ctx.notes["pending_findings"].append(text)
+            elif text not in ctx.known:
+                ctx.known.append(text)
+    ctx.log("finding probes: %s; active: %s" % (ctx.notes.get("finding_probes"), sorted(ACTIVE) or "none"))
+
+
+def conclude(ctx, level, **kw):
+    """core.finish plus the PENDING-FINDING lines (findings proposed by this check, not listed in known_findings.json)."""
+    pend = ctx.notes.get("pending_findings", [])
+    for k in list(ctx.known):
+        if k.startswith("PENDING "):
+            ctx.known.remove(k)
+            if k[8:] not in pend:
+                pend.append(k[8:])
+    if pend:
+        ctx.notes["pending_findings"] = pend
+    rc = core.finish(ctx, level, **kw)
+    for t in pend:
+        print("PENDING-FINDING: property=%s %s" % (ctx.pid, t))
+    return rc
+
+
 def classify(findings):
     """A rejected event is a known finding only when it is exactly the listed call site / input:
     all `match` fields equal and, with "when": "grows", the call asks for more characters than the
@@ -816,6 +1520,17 @@ def classify(findings):
     def f(ev, execution):
         for k in findings:
             m = k.get("match", {})
+            if m.get("alias") == "unsafe":
+                if k["id"] not in ACTIVE or ev.get("a", {}).get("sk") not in ALIAS_KINDS:
+                    continue
+                try:
+                    prev = json.loads(execution[-2])
+                    before = prev["st"]["o"][ev["k"] - 1]["chars"]
+                    if alias_unsafe(ev, before):
+                        return ("PENDING " if k.get("pending") else "") + "%s (%s)" % (k["key"], k["what"])
+                except Exception:
+                    pass
+                continue
             if not m or not all(ev.get(x) == y or ev.get("a", {}).get(x) == y for x, y in m.items()):
                 continue
             if k.get("when") == "grows":
@@ -831,17 +1546,65 @@ def classify(findings):
     return f
 
 
+def _with_big_stack(fn):
+    """TLC evaluates sequence operators recursively; the thread stack needed grows with the string length.  -Xss64m
+    holds 300-character strings with a wide margin; should a StackOverflowError turn up nevertheless the run is
+    repeated once with a 1 GB stack instead of ending as a machinery error."""
+    try:
+        return retry_killed(lambda: fn(TLC_ENV))
+    except MachineryError as x:
+        if "StackOverflowError" not in str(x):
+            raise
+        return fn({"JAVA_TOOL_OPTIONS": "-Xss1g"})
+
+
+def validate_one(ctx, trace_path, explain=True):
+    return _with_big_stack(lambda env: core.validate_trace(ctx, "FixedStringTrace", "FixedStringTrace.cfg", trace_path, env=env, explain=explain))
+
+
+def validate_many(ctx, traces, classify_fn=None, max_restarts=3, parallel=None):
+    return _with_big_stack(lambda env: core.validate_traces(ctx, "FixedStringTrace", "FixedStringTrace.cfg", traces, classify=classify_fn,
+                                                            max_restarts=max_restarts, env=env, parallel=parallel or max(1, WORKERS // 2)))
+
+
 def cfg_of_reset(ev, ref=False):
     a = ev["a"]
-    ct = {1: "char", 2: "char16_t", 4: "wchar_t"}[a["cw"]]      # (char32_t replays as wchar_t: same width and layout)
-    return make_cfg(ct, a["n"], 1 if a["layout"] == "strlen" else 0, 1 if a["policy"] == "throwing" else 0, 1 if ref else 0)
+    ct = a.get("ct") or {1: "char", 2: "char16_t", 4: "wchar_t"}[a["cw"]]
+    return make_cfg(ct, a["n"], 1 if a["layout"] == "strlen" else 0, 1 if a["policy"] == "throwing" else 0, 1 if ref else 0, a.get("fl", ""))
 
 
 def replay(ctx, path, pid):
     """./verif replay <pid> <file>: re-run the recorded calls on the current tree and validate against L1."""
     # a replay file holds calls: keep (op, k, a) only, whatever else was recorded with them
-    lines = [{"op": l["op"], "k": l.get("k", 1), "a": l.get("a", {"z": 0})} for l in core.read_ndjson(path) if "_meta" not in l and "op" in l]
+    lines = []
+    for l in core.read_ndjson(path):
+        if "_meta" in l or "op" not in l:
+            continue
+        if l["op"] == "Crash":              # the recorded execution ended in the call named there
+            l = l.get("call") or {}
+            if "op" not in l:
+                continue
+        lines.append({"op": l["op"], "k": l.get("k", 1), "a": l.get("a", {"z": 0})})
     meta = [l for l in core.read_ndjson(path) if "_meta" in l]
+    if meta and meta[0]["_meta"].get("kind") == "sig":
+        before = len(ctx.violations)
+        sig_probe(ctx, [make_cfg(**meta[0]["_meta"]["cfg"])])
+        if len(ctx.violations) == before:
+            print("replay accepted: every row of the signature table holds now")
+            return 0
+        print("VIOLATION property=%s replay=%s" % (pid, path))
+        print("  " + ctx.violations[-1][1][:1500])
+        return 1
+    if meta and meta[0]["_meta"].get("kind") == "build":
+        c = make_cfg(**meta[0]["_meta"]["cfg"])
+        try:
+            build_drivers(ctx, [c])
+        except MachineryError as x:
+            print("VIOLATION property=%s replay=%s" % (pid, path))
+            print("  the conformance driver for %s still does not compile: %s" % (c["name"], str(x)[-1500:]))
+            return 1
+        print("replay accepted: the conformance driver for %s compiles now" % c["name"])
+        return 0
     if meta and meta[0]["_meta"].get("kind") == "compile":
         ok, out = wide_probe(ctx)
         if ok:
@@ -857,8 +1620,8 @@ def replay(ctx, path, pid):
     drv = build_drivers(ctx, [c])[c["name"]]
     sp, tp = os.path.join(ctx.work, "replay.script"), os.path.join(ctx.work, "replay.ndjson")
     write_script(sp, lines)
-    run_driver(drv, sp, tp)
-    r = core.validate_trace(ctx, "FixedStringTrace", "FixedStringTrace.cfg", tp, env=TLC_ENV)
+    run_script(drv, sp, tp)
+    r = validate_one(ctx, tp)
     if r["accepted"]:
         print("replay accepted: the recorded calls now conform to FixedString.tla")
         return 0
@@ -867,15 +1630,49 @@ def replay(ctx, path, pid):
     return 1
 
 
+def l2_cfg(ctx, cfg, mode):
+    """A copy of an L2 configuration with another transcription of the aliasing paths (constant AliasMode of
+    FixedStringImpl.tla: "repaired" = the code as it stands, "all" = the step order before d2d1dcc with every
+    aliasing call, which TLC refutes; "safe" = that order restricted to the calls it handled).  Returns a cfg path."""
+    with open(os.path.join(core.SPECS, cfg)) as f:
+        text = re.sub(r'AliasMode = "\w+"', 'AliasMode = "%s"' % mode, f.read())
+    out = os.path.join(ctx.sub("cfg"), cfg[:-4] + "_" + mode + ".cfg")
+    with open(out, "w") as f:
+        f.write(text)
+    return out
+
+
+def l2_model_check(ctx, cfgs, what):
+    """TLC: FixedStringImpl.tla refines FixedString.tla (advisory: a failure is MODEL-DRIFT).  In the thorough tier
+    also the converse self-test of the L2 model: with the step order the code had before d2d1dcc and every aliasing
+    source enabled (AliasMode = "all") TLC must find the refinement violated - if it does not, L2 has lost the
+    ability to see that class of defect."""
+    if SKIP_MC:
+        return
+    for cfg in cfgs:
+        if not os.path.exists(os.path.join(core.SPECS, cfg)):
+            continue
+        r2 = retry_killed(lambda: core.tlc_model_check(ctx, "FixedStringImplMC", cfg, what, heap="3g", timeout=2400, workers=WORKERS))
+        if r2["violated"]:
+            ctx.drift.append("FixedStringImpl.tla does not refine FixedString.tla or breaks its buffer invariants (%s); see %s" % (r2["violated"], r2["outfile"]))
+    if not ctx.quick:
+        r3 = core.tlc(ctx, "FixedStringImplMC", l2_cfg(ctx, cfgs[0], "all"), name="l2-selftest-pre-repair-aliasing", heap="4g", timeout=900, workers=WORKERS)
+        ctx.notes["l2_selftest_pre_repair_step_order_refuted"] = bool(r3["violated"])
+        if not r3["violated"]:
+            ctx.drift.append("FixedStringImpl.tla with the pre-repair step order (AliasMode = \"all\") is no longer refuted by TLC")
+
+
 def l2_drift(ctx, items):
     """Advisory: replay recorded traces (N <= 32: raw cells are logged) through the L2 model
     FixedStringImplTrace; a rejection means FixedStringImpl.tla no longer describes the code's buffer
     handling cell by cell.  MODEL-DRIFT only, never a verdict.  items: [(trace_path, cfgd)]."""
+    l2cfg = "FixedStringImplTrace.cfg"
+
     def one(it):
         tp, c = it
         env = dict(TLC_ENV); env["FS_N"] = str(c["n"])
         try:
-            r = core.validate_trace(ctx, "FixedStringImplTrace", "FixedStringImplTrace.cfg", tp, env=env, explain=False)
+            r = core.validate_trace(ctx, "FixedStringImplTrace", l2cfg, tp, env=env, explain=False)
         except MachineryError as x:
             return (tp, c, None, str(x)[:400])
         return (tp, c, r, None)
@@ -905,6 +1702,18 @@ def vacuity(ctx, s2c_ops, scripts):
         for l in lines:
             c2s[l["op"]] = c2s.get(l["op"], 0) + 1
     ctx.notes["c2s_events_per_action"] = c2s
+    al = {}
+    for name, c, lines in scripts:
+        if c["ref"]:
+            continue
+        for l in lines:
+            a = l.get("a", {})
+            if a.get("sk") in ALIAS_KINDS or a.get("rk") == "self" or str(a.get("ov", "")).endswith("self"):
+                ak = "%s/%s" % (l["op"], a.get("sk") or a.get("ov") or "self")
+                al[ak] = al.get(ak, 0) + 1
+    ctx.notes["c2s_aliasing_calls"] = al
+    ctx.notes["s2c_aliasing_calls_replayed"] = {k[6:]: v for k, v in s2c_ops.items() if k.startswith("alias:")}
+    ctx.notes["s2c_calls_replayed_per_action"] = {k: v for k, v in s2c_ops.items() if not k.startswith("alias:")}
     ctx.notes["vacuous_actions"] = sorted(op for op in ALL_OPS if not s2c_ops.get(op) and not c2s.get(op))
     ctx.notes["actions_not_enumerated_by_tlc"] = sorted(op for op in ALL_OPS if not s2c_ops.get(op))
 
@@ -921,7 +1730,7 @@ def run_and_validate(ctx, scripts, drivers, findings, ref_ok=None):
         sp = os.path.join(tdir, name + ".script")
         tp = os.path.join(tdir, name + ".ndjson")
         write_script(sp, lines)
-        run_driver(drivers[c["name"]], sp, tp)
+        run_script(drivers[c["name"]], sp, tp)
         return tp
 
     with ThreadPoolExecutor(max_workers=WORKERS) as ex:
@@ -931,7 +1740,7 @@ def run_and_validate(ctx, scripts, drivers, findings, ref_ok=None):
                 ctx.cov["traces_validated_against_impl"] += sum(1 for l in item[2] if l["op"] == "Reset")
     if reftraces:
         before = len(ctx.violations)
-        res = core.validate_traces(ctx, "FixedStringTrace", "FixedStringTrace.cfg", reftraces, env=TLC_ENV, parallel=max(1, WORKERS // 2))
+        res = validate_many(ctx, reftraces, None, max_restarts=1)
         bad = [(p, r) for p, r in res if not r["accepted"]]
         if bad:
             p, r = bad[0]
@@ -941,9 +1750,17 @@ def run_and_validate(ctx, scripts, drivers, findings, ref_ok=None):
         ctx.notes["reference_events_validated_on_std_string"] = sum(r["matched"] for _, r in res)
         ctx.cov["events_validated"] -= ctx.notes["reference_events_validated_on_std_string"]
     before = len(ctx.violations)
-    res = core.validate_traces(ctx, "FixedStringTrace", "FixedStringTrace.cfg", traces, classify=classify(findings), env=TLC_ENV, parallel=max(1, WORKERS // 2))
+    res = validate_many(ctx, traces, classify(findings), max_restarts=MAX_REJECTIONS_PER_TRACE)
     if len(ctx.violations) == before:
         small = [(os.path.join(tdir, name + ".ndjson"), c) for name, c, _ in scripts if not c["ref"] and c["n"] <= 32 and not name.startswith("probe-")]
+        if ctx.quick:
+            # advisory stage: in the quick tier one trace per (layout, character width) is enough
+            seen, pick = set(), []
+            for tp, c in small:
+                if (c["layout"], c["cw"], tp.count("directed")) not in seen:
+                    seen.add((c["layout"], c["cw"], tp.count("directed")))
+                    pick.append((tp, c))
+            small = pick
         l2_drift(ctx, small)
     # events_validated counts L1 validation only
     return res
